@@ -78,9 +78,30 @@ def st_literal_memberships(draw):
 
 
 @st.composite
-def st_case(draw):
-    kind = draw(st.sampled_from(["pred", "pred", "pred", "range", "expr", "literal-memberships"]))
+def st_deep_expr(draw):
+    """A deeply nested arithmetic expression (33-40 levels of + and -; one operand of every level is a leaf): deep trees
+    are what machine-written queries look like; magnitudes stay small.  Right-nested operands become nested parentheses
+    in SQL, and SQLite's parser gives up beyond ~30 of them: that outcome is a limit of the database and is counted, not
+    reported; the iteration engine is still compared with the reference, and left-nested trees reach the database."""
     cols = [A, B, C]
+    e = ("ref", draw(st.sampled_from(cols)))
+    for _ in range(draw(st.integers(33, 40))):
+        r = draw(st.integers(1, 9))
+        leaf = ("ref", draw(st.sampled_from(cols))) if draw(st.booleans()) else ("lit", draw(st.integers(-3, 3)))
+        op = "sub" if r < 6 else "add"
+        e = (op, e, leaf) if draw(st.booleans()) else (op, leaf, e)
+    return e
+
+
+@st.composite
+def st_case(draw):
+    kind = draw(st.sampled_from(["pred", "pred", "pred", "pred", "range", "range", "expr", "expr", "literal-memberships", "literal-memberships", "deep"]))
+    cols = [A, B, C]
+    if kind == "deep":
+        e = draw(st_deep_expr())
+        if draw(st.booleans()):
+            return ("expr", e)
+        return ("pred", (draw(st.sampled_from(["lt", "ge", "eq"])), e, ("lit", draw(st.integers(-3, 3)))))
     if kind == "literal-memberships":
         return ("pred", draw(st_literal_memberships()))
     if kind == "expr":
@@ -182,6 +203,10 @@ def run_case(case, stats):
             q = sa.select(t.c.a, t.c.b, t.c.c, sa.type_coerce(col, sa.Integer).label("v"))
             got_rows = conn.execute(q).fetchall()
         except Exception as ex:
+            if "parser stack overflow" in str(ex):
+                # a limit of the database (SQLite's parser gives up on ~30 nested parentheses), not of the translation
+                stats.c["sql:database-nesting-limit"] += 1
+                return
             raise Violation("sql-raised", f"{type(ex).__name__}: {str(ex)[:300]}; {ctx}", exc=ex)
         if len(got_rows) != len(ROWS):
             raise Violation("sql-differs", f"{ctx}: {len(got_rows)} rows returned")
@@ -225,6 +250,9 @@ def run_case(case, stats):
                     q = q.where(sa.and_(*clauses))
             sql_true = {tuple(r) for r in conn.execute(q).fetchall()}
         except Exception as ex:
+            if "parser stack overflow" in str(ex):
+                stats.c["sql:database-nesting-limit"] += 1
+                continue
             raise Violation("sql-raised", f"{how}: {type(ex).__name__}: {str(ex)[:300]}; {ctx}", exc=ex)
         if sql_true != ref_true:
             extra = sorted(sql_true - ref_true)[:3]
